@@ -109,6 +109,15 @@ func ops() []op {
 			}},
 		)
 	}
+	// the list as its own argument (one object on both sides)
+	out = append(out,
+		op{Name: "Union(itself)", Class: "merge", apply: func(lib []*sbom.NodeList, cur *sbom.NodeList) (*sbom.NodeList, *engine.Violation, bool) {
+			return cur.Union(cur), nil, false
+		}},
+		op{Name: "Intersect(itself)", Class: "merge", apply: func(lib []*sbom.NodeList, cur *sbom.NodeList) (*sbom.NodeList, *engine.Violation, bool) {
+			return cur.Intersect(cur), nil, false
+		}},
+	)
 	for _, i := range []int{1, 2, 4, 6, 7, 8} {
 		for _, at := range []string{"a", "c", "x"} {
 			for _, ty := range []sbom.Edge_Type{tc, td} {
@@ -356,6 +365,8 @@ func pairOps() []pairOp {
 			ids := ids
 			add(fmt.Sprintf("%s.RemoveNodes(%s)", R, strings.Join(ids, ",")), func(tp *tuple) { tp.slot[r].RemoveNodes(ids) })
 		}
+		add(R+"="+R+".Union("+R+")", func(tp *tuple) { tp.slot[r] = tp.slot[r].Union(tp.slot[r]) })
+		add(R+"="+R+".Intersect("+R+")", func(tp *tuple) { tp.slot[r] = tp.slot[r].Intersect(tp.slot[r]) })
 		add(R+"="+R+".Union("+O+")", func(tp *tuple) { tp.slot[r] = tp.slot[r].Union(tp.slot[o]) })
 		add(R+"="+R+".Intersect("+O+")", func(tp *tuple) { tp.slot[r] = tp.slot[r].Intersect(tp.slot[o]) })
 		for _, at := range []string{"a", "b"} {
